@@ -72,6 +72,8 @@ def plan(tier, seed):
                 iters = max(iters, 25)      # class masses have to cross the library's absolute guards (1e-10) on the way
             cases.append(dict(kind=kind, cls=pick(['gauss', 'gauss', 'gauss', 'outlier']) if kind in ('gmm', 'gcacgmm') else 'gauss', K=K, N=N, D=D, lead=lead, spread=float(pick([0.5, 1.0, 1.5, 3.0])), offset=float(pick([0, 0, 1e4, 3e6])) if kind in ('gmm', 'gcacgmm') else 0.0, layout=pick(['c', 'c', 'f', 'tview']), level=float(pick([1.0, 1.0, 1e-3, 1e3, 1e-5])) if kind in ('gmm', 'gcacgmm') else 1.0, init=pick(['dirichlet:1', 'dirichlet:10', 'blur:0.5', 'dirichlet:0.3']),
                               iters=iters, opts=o, rs=[seed, 2, i]))
+            if kind not in models.REAL and r % 4 == 1:
+                cases[-1]['norms'] = 'subunit'
             i += 1
     return cases
 
